@@ -61,6 +61,19 @@ class ShortSocket(object):
         return -1
 
 
+class ResetSocket(ShortSocket):
+    """The connection is reset by the peer after `limit` bytes have been read."""
+
+    def __init__(self, data, sizes, limit):
+        super(ResetSocket, self).__init__(data[:limit], sizes)
+        self.limit = limit
+
+    def recv_into(self, buf, nbytes=0, flags=0):
+        if self.pos >= len(self.data):
+            raise ConnectionResetError(104, 'Connection reset by peer')
+        return super(ResetSocket, self).recv_into(buf, nbytes, flags)
+
+
 class YieldSocket(ShortSocket):
     """ShortSocket whose every read is a switch point (as a real socket read is under gevent)."""
 
@@ -378,6 +391,21 @@ def corrupt_case(draw):
     return bytes(data), draw(_sizes), mode, how
 
 
+def judge_reset(data, sizes, mode, limit):
+    """A header truncated by a connection reset: like any truncated header it must not make an exception escape handle()."""
+    edge = EDGES[mode]()
+    sock = ResetSocket(data, sizes, limit)
+    try:
+        edge.handle(sock, ('orig', 1))
+    except BaseException as e:
+        return [('C18:exception-escapes-handle:%s:%s:reset' % (mode, type(e).__name__),
+                 '%r reset after %d bytes, sizes=%r: %r' % (data[:60], limit, sizes[:6], e))]
+    for addr, pos in edge.calls:
+        if addr != (None, None) and limit < ref(data, mode)[3]:
+            return [('C18:truncated-header-accepted:' + mode, '%r reset after %d bytes -> %r' % (data[:60], limit, addr))]
+    return []
+
+
 def judge_concurrent(conns, mode):
     """conns: list of (data, sizes, yields). Several connections are handled by one edge at the same time; every read is a switch
     point. Each connection must get exactly the result it gets when handled alone."""
@@ -504,10 +532,25 @@ def run_concurrent(ctx, n):
     hyp.drive(ctx, concurrent_case(), one, n, salt=2)
 
 
+def run_resets(ctx):
+    index = 0
+    for ver, hdr in SAMPLE_HEADERS:
+        for mode in (ver, 'auto'):
+            for limit in range(0, len(hdr)):
+                for sizes in ([1 << 20], [3], [1]):
+                    index += 1
+                    if not ctx.mine(index):
+                        continue
+                    f = judge_reset(hdr, sizes, mode, limit)
+                    ctx.record(('reset', hdr, mode, limit, tuple(sizes)), limit > 0, labels=['reset'],
+                               case=lambda: {'reset': limit, 'data': hexb(hdr), 'sizes': sizes, 'mode': mode}, failures=f)
+
+
 def run_shard(ctx):
     if ctx.thorough:
         from vf import fuzz
         fuzz.run(ctx, ID, 90, FUZZ_SEEDS)
+    run_resets(ctx)
     run_concurrent(ctx, ctx.n(4000, 80000))
     run_substitutions(ctx)
     run_valid(ctx, ctx.n(30000, 1000000))
@@ -519,6 +562,8 @@ def replay(case):
     mode = case.get('mode')
     if mode not in EDGES:
         return []
+    if 'reset' in case:
+        return judge_reset(unhex(case['data']), sizes, mode, max(0, int(case['reset'])))
     if 'concurrent' in case:
         conns = [(unhex(c[0]), [max(1, int(x)) for x in c[1]] or [1 << 20], [max(0, min(3, int(x))) for x in c[2]] or [1])
                  for c in case['concurrent'] if isinstance(c, list) and len(c) == 3]
